@@ -73,7 +73,7 @@ fn main() {
             let seed: u64 = args.get(3).and_then(|s| s.parse().ok()).unwrap_or(1);
             let tier = tier_of(args.get(4).map(|s| s.as_str()).unwrap_or("quick"));
             let plan = prop.gen_plan(seed, tier);
-            let rep = prop.run_plan(&plan);
+            let rep = framework::run_guarded(prop.as_ref(), &plan);
             println!("{}", serde_json::to_string_pretty(&rep).unwrap());
         }
         _ => usage(),
